@@ -54,6 +54,12 @@ func (x *Exec) call(s *State, in ssa.Instruction, c *ssa.CallCommon, result ssa.
 			args = append(args, fv.Fn.Bindings...)
 		} else {
 			key = "funcvalue:" + c.Value.Name()
+			// a package-level variable of function type: contract under the variable's name
+			if u, ok := c.Value.(*ssa.UnOp); ok {
+				if g, ok := u.X.(*ssa.Global); ok {
+					key = g.Pkg.Pkg.Path() + "." + g.Name()
+				}
+			}
 			// a function-typed parameter may have a contract attached in the enclosing contract
 			if p, ok := c.Value.(*ssa.Parameter); ok {
 				key = funcKey(x.fn) + "#" + p.Name()
@@ -201,7 +207,7 @@ func (x *Exec) applyContract(s *State, con *Contract, names []string, args []Val
 	func() {
 		defer x.recoverSpec(con.Name, &ok)
 		for i, c := range con.Requires {
-			t := env.evalBool(c.Expr)
+			t := env.checkTerm(c)
 			o := x.ob("pre", site+"#"+clauseName(c, i), "precondition of "+con.Name+": "+c.Src, in)
 			s.check(o, t)
 		}
@@ -257,6 +263,7 @@ func (x *Exec) applyContract(s *State, con *Contract, names []string, args []Val
 		na := x.fresh("alloc", sInt)
 		s.assume(app("<=", s.alloc, na))
 		s.alloc = na
+		s.sealHavoc()
 	}
 	// results
 	var rv Value
@@ -286,7 +293,7 @@ func (x *Exec) applyContract(s *State, con *Contract, names []string, args []Val
 				vars[n] = v
 			}
 			for _, c := range con.Ensures {
-				s.assume(post.evalBool(c.Expr))
+				post.assumeClause(c)
 			}
 		}
 	}()
@@ -384,6 +391,12 @@ func (x *Exec) calleeModKeys(s *State, in ssa.CallInstruction) []string {
 	} else {
 		if p, ok := c.Value.(*ssa.Parameter); ok {
 			key = funcKey(x.fn) + "#" + p.Name()
+		} else if u, ok := c.Value.(*ssa.UnOp); ok {
+			if g, ok := u.X.(*ssa.Global); ok {
+				key = g.Pkg.Pkg.Path() + "." + g.Name()
+			} else {
+				return []string{"*"}
+			}
 		} else {
 			return []string{"*"}
 		}
